@@ -98,4 +98,40 @@ PROPS = {
             ],
         },
     },
+    "C07": {
+        "target": "c07",
+        "tiers": {
+            "quick": {"count": 4000000, "budget_s": 40, "workers": 16, "recheck": 100},
+            "thorough": {"count": 200000000, "budget_s": 900, "workers": 16, "recheck": 200},
+        },
+        "describe": {
+            "rule": ("one run = one seeded plan: a handler set-up from the recipe menu (flags, scalars, optionals, vectors/sets/deques/lists, "
+                     "map, tuple, bitset, vector<bool>, long-key prefixes, positional; separators, checks, formats, cardinalities, "
+                     "constraints drawn per run), an abstract command line built from the recipe's rules and split into consecutive "
+                     "parts delivered by the argument file (program-name file under $HOME/.progargs or an argument-file argument), the "
+                     "environment variable (default or explicitly named) and argv; every word delivered through file/environment is "
+                     "quoted in a random style (backslash, single, double, mixed); comment/empty lines interspersed; file with or without "
+                     "final newline; reads chunked to 1..16 bytes, short reads, EINTR. The subject run must equal a reference run that "
+                     "gets the same words on argv with the sources switched off (both return with equal destination values, or both "
+                     "throw); override cases give a single-value argument through a source and again on argv. Non-trivial: at least "
+                     "one word travelled through the file or the environment. Distinct: distinct hashes over rendered sources, both "
+                     "outcomes and every simulated file-system call."),
+            "sim_time_unit": "none (no clock in this property)",
+            "state_measure": "distinct (file delivery, environment delivery, number of sources carrying words) tuples",
+            "distinct_measure": "distinct (rendered file, rendered environment value, argv, outcome records, file-system call sequence) hashes",
+            "components": {
+                "real": ["celma::prog_args::Handler (evalArguments, readEvalFileArguments, checkReadEnvVarArgs, readArgumentFile)",
+                         "celma::appl::ArgString2Array / make_arg_array (splitString)", "ArgListParser, TypedArg<...>, checks, formats, constraints",
+                         "libstdc++ std::ifstream / std::getline"],
+                "stub": [STUB_FS, "environment block (getenv overlay: HOME, the program's variable)"],
+            },
+            "assumptions": [
+                "only benign read behaviour is injected here (chunking, short reads, EINTR, missing final newline): none of them may change a result; read errors belong to C04",
+                "cardinality-limited arguments are used at most once over all sources except in explicit override cases (the library ignores cardinality for file/environment words by design)",
+                "constructs whose effect ends with the line by design ('--', '!', a key whose value is on the next line) are generated on argv only",
+                "the reference is the same real code fed through argv: a defect that affects argv evaluation and source evaluation alike is invisible here",
+                "sampling, not enumeration",
+            ],
+        },
+    },
 }
